@@ -255,7 +255,7 @@ def obligations(tier, seed):
         pairs = list(itertools.product(kinds, repeat=2))
         triples = list(itertools.product(kinds, repeat=3))
         chosen = (rnd.sample(pairs, min(len(pairs), 14 if d == "ansi" else 8)) + rnd.sample(triples, 6 if d == "ansi" else 4)) if tier == "quick" \
-            else (pairs + rnd.sample(triples, min(len(triples), 60)) + [tuple(rnd.choice(kinds) for _ in range(4)) for _ in range(10)])
+            else (pairs + rnd.sample(triples, min(len(triples), 30)) + [tuple(rnd.choice(kinds) for _ in range(4)) for _ in range(6)])
         for ks in chosen:
             obs.append(AssemblyOb(ks, d))
     for ks in [("insert", "insert_star"), ("ctas", "insert_star"), ("ctas", "insert_unq_join"), ("insert", "insert_star", "insert_star")]:
